@@ -42,6 +42,9 @@ type Case struct {
 	// Prior: the entry is first applied with a benign argument, then neighbours are added (another cookie, another
 	// field), then the entry is applied with the payload: the setters' update-in-place paths, not only their append paths.
 	Prior bool `json:"prior,omitempty"`
+	// Proxy: the request is written by a client configured with an HTTP proxy (absolute-form request target,
+	// built from the Host the application set)
+	Proxy bool `json:"proxy,omitempty"`
 }
 
 func merge(a, b map[string]int) map[string]int {
@@ -412,12 +415,13 @@ func judgeMessage(msg []byte, startLine string, allowed map[string]int, chunked 
 }
 
 type worker struct {
-	s     *srvh.Server
-	cli   *clih.Client
-	cur   *respEntry
-	curP  string
-	prior bool
-	got   map[string]int
+	s        *srvh.Server
+	cli      *clih.Client
+	cliProxy *clih.Client
+	cur      *respEntry
+	curP     string
+	prior    bool
+	got      map[string]int
 }
 
 type emptyReader struct{}
@@ -447,12 +451,14 @@ func newWorker() *worker {
 	w.s.E.Any("/*any", w.s.Echo)
 	w.s.Start()
 	w.cli = clih.New(nil)
+	w.cliProxy = clih.New(nil)
+	w.cliProxy.HC.ProxyURI = protocol.ParseURI("http://proxy.example:3128")
 	return w
 }
 
 func (w *worker) exec(c *mc.Ctx, cs Case) {
 	fail := func(why string, out []byte) {
-		c.Violate(cs.Side+"|"+cs.Entry+map[bool]string{false: "", true: "|after-prior-use"}[cs.Prior], fmt.Sprintf("%s with payload %q: %s\nwire=%q", cs.Entry, cs.Payload, why, clip(out)), cs)
+		c.Violate(cs.Side+"|"+cs.Entry+map[bool]string{false: "", true: "|after-prior-use"}[cs.Prior]+map[bool]string{false: "", true: "|via-proxy"}[cs.Proxy], fmt.Sprintf("%s with payload %q: %s\nwire=%q", cs.Entry, cs.Payload, why, clip(out)), cs)
 	}
 	if cs.Side == "request" {
 		var e *reqEntry
@@ -488,17 +494,29 @@ func (w *worker) exec(c *mc.Ctx, cs Case) {
 			return // the setter refused the argument by panicking: nothing is serialised (crashes are C03's business)
 		}
 		sc := netsim.NewScriptConn([][]byte{[]byte("HTTP/1.1 200 OK\r\nContent-Length: 0\r\n\r\n")}, netsim.EndEOF)
-		w.cli.Reset(sc)
+		cli := w.cli
+		if cs.Proxy {
+			cli = w.cliProxy
+		}
+		cli.Reset(sc)
 		resp := protocol.AcquireResponse()
-		err := w.cli.HC.Do(context.Background(), req, resp)
+		err := cli.HC.Do(context.Background(), req, resp)
 		protocol.ReleaseResponse(resp)
-		w.cli.Reset()
+		cli.Reset()
 		if len(sc.Out) == 0 {
 			_ = err
 			return // nothing was sent (the client refused the request): dropping is allowed
 		}
 		c.Distinct("outcomes", fmt.Sprintf("request|%d lines", bytes.Count(sc.Out, []byte("\r\n"))))
-		if why := judgeMessage(sc.Out, "POST /p HTTP/1.1", allowed, e.chunk); why != "" {
+		start := "POST /p HTTP/1.1"
+		if cs.Proxy {
+			// absolute form with whatever host the application named; what matters is that it is ONE line
+			if i := bytes.Index(sc.Out, []byte("\r\n")); i > 0 && bytes.HasPrefix(sc.Out, []byte("POST ")) && bytes.HasSuffix(sc.Out[:i], []byte(" HTTP/1.1")) && !bytes.ContainsAny(sc.Out[:i], "\r\n") {
+				start = string(sc.Out[:i])
+			}
+			allowed = merge(allowed, map[string]int{"proxy-connection": 1, "proxy-authorization": 1})
+		}
+		if why := judgeMessage(sc.Out, start, allowed, e.chunk); why != "" {
 			fail(why, sc.Out)
 		}
 		return
@@ -536,7 +554,7 @@ func clip(b []byte) string {
 
 func payloads(maxLen int) []string {
 	al := []string{"a", "\r", "\n", "\x00", ":", " "}
-	var strs []string
+	strs := []string{""} // the empty name / value
 	var rec func(s string)
 	rec = func(s string) {
 		if s != "" {
@@ -579,6 +597,9 @@ func run(c *mc.Ctx) {
 	var cases []Case
 	for _, e := range reqEntries {
 		for _, p := range ps {
+			if strings.Contains(e.name, "Host") {
+				cases = append(cases, Case{Side: "request", Entry: e.name, Payload: p, Proxy: true})
+			}
 			cases = append(cases, Case{Side: "request", Entry: e.name, Payload: p}, Case{Side: "request", Entry: e.name, Payload: p, Prior: true})
 		}
 	}
